@@ -532,6 +532,10 @@ def expected_struct_meaning(item, kind, fallible, cp, hint):
             return ('assign', {'other.' + k: v for k, v in d.items()})
         return ('named', d, nsp(subst_text(upd, '<no-tilde>', src)) if upd else None)
     # tuple-shaped destination: position among the live fields, unless an index is given
+    if any(member is not None and not str(member).isdigit() for _, _, member, _ in live):
+        # a member *name* under a tuple-shaped destination (a default instruction written for a named counterpart also reaches a
+        # tuple-shaped one): the configuration contradicts itself, the statement does not say which of name / position wins
+        raise OutOfScope('named member under a tuple-shaped destination')
     if any(isinstance(member, int) or (member is not None and str(member).isdigit()) for _, _, member, _ in live):
         # "the renamed member when one is given": only settled when the given indices are a permutation of the positions
         idxs = [int(member) if member is not None and str(member).isdigit() else None for _, _, member, _ in live]
